@@ -21,7 +21,7 @@
 (* panicking calls, C05 (and C11/C12/C18/C10/C15 for their calls) only at  *)
 (* successful calls inside the documented precondition.                    *)
 (***************************************************************************)
-EXTENDS XotKnown, TLC, Json, IOUtils
+EXTENDS XotKnown, XotSerial, TLC, Json, IOUtils
 
 Rec == ndJsonDeserialize(IOEnv.TRACE)
 OpenKnown == LET ks == JsonDeserialize(IOEnv.KNOWN) IN {ks[j] : j \in 1..Len(ks)}
@@ -30,14 +30,15 @@ VARIABLE i
 
 PreOf(j) == Rec[j - Rec[j].back].post
 
-Outcome(e) == [res |-> e.res, n |-> e.post.n, ret |-> e.ret, rv |-> e.rv, has |-> e.has, rvs |-> e.rvs]
+Outcome(e) == [res |-> e.res, n |-> IF e.op = "dedup2" /\ e.res = "ok" THEN e.mid.n ELSE e.post.n, ret |-> e.ret, rv |-> e.rv, has |-> e.has, rvs |-> e.rvs]
 
 \* which property a rejected successful call is charged to
 PropsOfOp(op) ==
     CASE op \in {"clone_node", "clone_with_prefixes"} -> {"C12", "C05"}
-      [] op = "riw" -> {"C18"}
+      [] op \in {"riw", "riw2"} -> {"C18"}
+      [] op = "clone_store" -> {"C12"}
       [] op = "cmp" -> {"C10"}
-      [] op = "dedup" -> {"C15"}
+      [] op \in {"dedup", "dedup2"} -> {"C15"}
       [] op \in {"parse", "parse_fragment"} -> {"C04"}
       [] op \in ElementOnlyOps \ {"set_element_name"} -> {"C11", "C05"}
       [] op \in {"append_attribute_node", "append_namespace_node", "append_namespace"} -> {"C11", "C05"}
@@ -56,7 +57,12 @@ DiffIds(A, B) ==
     {j \in 1..(IF Len(A) < Len(B) THEN Len(B) ELSE Len(A)) : j > Len(A) \/ j > Len(B) \/ A[j] # B[j]}
 
 ExpectedDiff(e, N, cons, P) ==
-    IF e.op \in RelationalOps THEN <<"relation">>
+    IF e.op = "cmp" /\ CmpTarget(N, A1(e)) # 0 THEN
+        LET top == CmpTarget(N, A1(e)) IN
+        <<"relation", "only-adds-declarations", OnlyAddsDecls(N, P, top),
+          "depended-bindings-kept", OnlyAddsDecls(N, P, top) /\ DependedBindingsKept(N, P, top),
+          "not-usable-afterwards", IF OnlyAddsDecls(N, P, top) THEN {x \in Named(P, top) : ~NameUsable(P, x)} ELSE {}>>
+    ELSE IF e.op \in RelationalOps THEN <<"relation">>
     ELSE LET same == {o \in EnumAllowed(e, N, cons) : o.res = e.res} IN
          IF same = {} THEN <<"res-not-allowed", {o.res : o \in EnumAllowed(e, N, cons)}>>
          ELSE LET o == CHOOSE o \in same : TRUE IN
@@ -101,6 +107,86 @@ JudgeCall(j) ==
            \A prop \in PropsOfOp(e.op) : Report(j, prop, ExpectedDiff(e, N, cons, P))
        ELSE Report(j, "X00", <<"accepted-outside-precondition">>)
 
+\* --------------------------------------------------------------- C11 monitor
+ViewKeys == << <<"", "a">>, <<"", "b">>, <<"u1", "a">>, <<"u1", "b">>, <<XmlNs, "space">> >>
+ViewPfx == <<"", "p", "q">>
+
+AttrViewBad(N, x, v) ==
+    LET A == AttrKids(N, x)
+        keys == [q \in 1..Len(A) |-> <<N[A[q]].ns, N[A[q]].ln>>]
+        vals == [q \in 1..Len(A) |-> N[A[q]].t]
+        pairs == [q \in 1..Len(A) |-> <<keys[q], vals[q]>>]
+        chk(name, ok) == IF ok THEN {} ELSE {name}
+        hit(k) == Lookup(N, x, "attr", k)
+    IN chk("len", v.len = Len(A)) \cup chk("is_empty", v.empty = (Len(A) = 0))
+       \cup chk("keys", v.keys = keys) \cup chk("values", v.vals = vals) \cup chk("nodes", v.nodes = A)
+       \cup chk("iter", v.iter = pairs) \cup chk("to_vec", v.vec = pairs)
+       \cup chk("to_hashmap", {<<v.hm[q][1], v.hm[q][2], v.hm[q][3]>> : q \in 1..Len(v.hm)} = {<<keys[q][1], keys[q][2], vals[q]>> : q \in 1..Len(A)} /\ Len(v.hm) = Len(A))
+       \cup UNION {chk("contains_key/get/get_node",
+                        LET h == hit(ViewKeys[q]) IN
+                        v.get[q] = <<h # 0, h # 0, IF h = 0 THEN <<>> ELSE N[h].t, h>>) : q \in 1..Len(ViewKeys)}
+
+NsViewBad(N, x, v) ==
+    LET A == NsKids(N, x)
+        keys == [q \in 1..Len(A) |-> <<"", N[A[q]].ln>>]
+        vals == [q \in 1..Len(A) |-> N[A[q]].u]
+        pairs == [q \in 1..Len(A) |-> <<keys[q], vals[q]>>]
+        chk(name, ok) == IF ok THEN {} ELSE {name}
+        hit(p) == Lookup(N, x, "nsn", <<"", p>>)
+    IN chk("len", v.len = Len(A)) \cup chk("is_empty", v.empty = (Len(A) = 0))
+       \cup chk("keys", v.keys = keys) \cup chk("values", v.vals = vals) \cup chk("nodes", v.nodes = A)
+       \cup chk("iter", v.iter = pairs) \cup chk("to_vec", v.vec = pairs)
+       \cup chk("to_hashmap", {<<v.hm[q][1], v.hm[q][2]>> : q \in 1..Len(v.hm)} = {<<keys[q][2], vals[q]>> : q \in 1..Len(A)} /\ Len(v.hm) = Len(A))
+       \cup UNION {chk("contains_key/get/get_node",
+                        LET h == hit(ViewPfx[q]) IN
+                        v.get[q] = <<h # 0, h # 0, IF h = 0 THEN "" ELSE N[h].u, h>>) : q \in 1..Len(ViewPfx)}
+
+\* the serialiser lists this element's own declarations and then its attributes, each in map order
+SerOrderBad(N, x, outs) ==
+    LET own == [q \in 1..Len(NsKids(N, x)) |-> N[NsKids(N, x)[q]].ln]
+        pf == SelectSeq(outs, LAMBDA o : o[1] = "pfx" /\ Has(own, o[3]))
+        at == SelectSeq(outs, LAMBDA o : o[1] = "attr")
+        firstAttr == {q \in 1..Len(outs) : outs[q][1] = "attr"}
+        lastPfx == {q \in 1..Len(outs) : outs[q][1] = "pfx"}
+    IN ~( /\ [q \in 1..Len(pf) |-> pf[q][3]] = own
+          /\ [q \in 1..Len(at) |-> <<at[q][2], at[q][3]>>] = [q \in 1..Len(AttrKids(N, x)) |-> <<N[AttrKids(N, x)[q]].ns, N[AttrKids(N, x)[q]].ln>>]
+          /\ \A a \in firstAttr, p \in lastPfx : p < a )
+
+C11Views(j) ==
+    LET e == Rec[j]  N == e.post.n
+        bad == UNION {
+                 {<<x, "attributes()", f>> : f \in AttrViewBad(N, x, e.views[x].aro)}
+                 \cup {<<x, "attributes_mut()", f>> : f \in AttrViewBad(N, x, e.views[x].amu)}
+                 \cup {<<x, "namespaces()", f>> : f \in NsViewBad(N, x, e.views[x].nro)}
+                 \cup {<<x, "namespaces_mut()", f>> : f \in NsViewBad(N, x, e.views[x].nmu)}
+                 \cup (IF SerOrderBad(N, x, e.views[x].outs) THEN {<<x, "serialisation", "order">>} ELSE {})
+               : x \in {y \in 1..Len(N) : y <= Len(e.views) /\ N[y].k = "elem" /\ e.views[y].live}}
+    IN bad # {} => Report(j, "C11", <<"views", bad>>)
+
+\* --------------------------------------------------------------- C12 monitor (Xot::clone)
+C12Twin(j) ==
+    LET e == Rec[j]  pre == PreOf(j)  post == e.post IN
+    /\ (e.op = "clone_store" /\ e.res = "ok" /\ ~(post.tw.has /\ post.tw.n = pre.n /\ post.n = pre.n))
+          => Report(j, "C12", <<"cloned store differs from its source", DiffIds(post.tw.n, pre.n)>>)
+    /\ (e.op # "clone_store" /\ pre.tw.has /\ post.tw.has
+          /\ SubSeq(post.tw.n, 1, Len(pre.tw.n)) # pre.tw.n)
+          => Report(j, "C12", <<"a call on one store changed the other", DiffIds(SubSeq(post.tw.n, 1, Len(pre.tw.n)), pre.tw.n)>>)
+
+\* --------------------------------------------------------------- C10 / C15 serialisation clauses
+SerOk(o) == o.has /\ o.res = "ok" /\ o.re = "ok"
+ReRootOf(N, o) == IF N[o.root].k = "doc" THEN o.reroot ELSE DocumentElement(o.retree.n, o.reroot)
+ReparsesEqual(N, o) == ReRootOf(N, o) # 0 /\ Canon(N, o.root, "all", "exact") = Canon(o.retree.n, ReRootOf(N, o), "all", "exact")
+
+SerClauses(j) ==
+    LET e == Rec[j]  N == PreOf(j).n  P == e.post.n IN
+    /\ (e.op = "cmp" /\ e.res = "ok" /\ e.spost.has /\ Representable(P, e.spost.root) /\ ~(SerOk(e.spost) /\ ReparsesEqual(P, e.spost)))
+          => Report(j, "C10", <<"after create_missing_prefixes the tree does not serialise / reparse deep-equal", e.spost.res, e.spost.re>>)
+    /\ (e.op = "dedup2" /\ e.res = "ok" /\ e.post.n # e.mid.n)
+          => Report(j, "C15", <<"a second deduplicate_namespaces removed something", DiffIds(e.mid.n, e.post.n)>>)
+    /\ (e.op \in {"dedup", "dedup2"} /\ e.res = "ok" /\ e.spre.has /\ SerOk(e.spre) /\ ReparsesEqual(N, e.spre)
+           /\ ~(SerOk(e.spost) /\ ReparsesEqual(N, [e.spost EXCEPT !.root = e.spre.root])))
+          => Report(j, "C15", <<"a tree that serialised before deduplicate_namespaces does not any more / reparses differently", e.spost.res, e.spost.re>>)
+
 Judge(j) ==
     LET e == Rec[j] IN
     IF e.op = "reset" THEN C04State(j)
@@ -109,6 +195,9 @@ Judge(j) ==
          IF StructDefect(pre.n) # "none" THEN TRUE
          ELSE /\ C04State(j)
               /\ C04Step(j)
+              /\ (StructDefect(e.post.n) = "none" /\ e.views # <<>>) => C11Views(j)
+              /\ StructDefect(e.post.n) = "none" => C12Twin(j)
+              /\ StructDefect(e.post.n) = "none" => SerClauses(j)
               /\ (StructDefect(e.post.n) \in {"none", "ns-attr-child-order", "kind-rules", "duplicate-key"}
                     /\ e.post.bad = "" => JudgeCall(j))
               /\ (e.post.cons # (IF e.op = "set_cons" THEN e.b ELSE pre.cons)
